@@ -694,7 +694,7 @@ def afterPart : Nat → Val → Bool → Option (List Expr) → Bool → XM (Opt
     -- entry, an element of a `[]*Value`) is unpacked; one held in an interface-typed element or
     -- field stays a pointer to the `Value` struct
     let (v, safe) := match v, direct with
-      | .boxed inner s, true => (inner, s)
+      | .boxed inner s, true => Val.unboxAll inner s
       | _, _ => (v, safe)
     if call.isSome || v.kind == .func then
       if v.kind != .func then xerr "is not a function"
